@@ -720,7 +720,7 @@ impl Property for C16 {
         ]
     }
     fn pbt(&self, tier: Tier) -> PbtCfg {
-        PbtCfg { cases: tier.pick(1_000_000, 40_000_000), max_len: 1400, shrink_ms: 120_000 }
+        PbtCfg { cases: tier.pick(1_000_000, 20_000_000), max_len: 1400, shrink_ms: 120_000 }
     }
     fn required_labels(&self) -> Vec<&'static str> {
         vec!["renet_value", "bytes_decoded", "netcode_value", "request_bytes_decoded", "token_value", "token_bytes_decoded", "ranges>=3", "over64"]
